@@ -104,7 +104,7 @@ WORDS = ["ab", "the", u"éa"]
 OPS = [" AND ", " OR ", " NOT ", " ANDNOT ", " ANDMAYBE ", " REQUIRE "]
 PUNCT = ["(", ")", '"', "'", ":", "^2", "~", "~2", "[", "]", "{", "}", " TO ",
          "*", "?", "+", "-", "<", ">="]
-PREFIXES = ["t:", "k:", "i:", "n:", "f:", "d:", "b:", "g:", "w:", "zz:"]
+PREFIXES = ["t:", "k:", "i:", "n:", "f:", "d:", "b:", "g:", "w:", "m:", "zz:"]
 VALUES = ["200101", "7"]
 MISC = [" ", 'r"']
 FULL = WORDS + OPS + PUNCT + PREFIXES + VALUES + MISC
@@ -117,7 +117,7 @@ def reduced(seed, n):
     each token class is used (every variant is a complete product space)."""
     def pick(lst, k=0):
         return lst[(seed + k) % len(lst)]
-    typed = ["d:", "n:", "b:", "g:", "t:", "f:", "k:", "w:", "i:", "zz:"]
+    typed = ["d:", "n:", "b:", "g:", "m:", "t:", "f:", "k:", "w:", "i:", "zz:"]
     order = ["ab", " ", "(", ")", '"', " NOT ", pick(typed), "[", "]", " TO ", "*", "^2",
              pick([" ANDNOT ", " ANDMAYBE ", " REQUIRE "]),
              pick([" AND ", " OR "]), pick(["~2", "~"]), pick(["<", ">="]),
@@ -154,7 +154,9 @@ def typed_schema():
         t=fields.TEXT(), k=fields.KEYWORD(scorable=True), i=fields.ID(),
         n=fields.NUMERIC(int), f=fields.NUMERIC(float), d=fields.DATETIME(),
         b=fields.BOOLEAN(), g=fields.NGRAM(minsize=2, maxsize=3),
-        w=fields.NGRAMWORDS(minsize=2, maxsize=3))
+        w=fields.NGRAMWORDS(minsize=2, maxsize=3),
+        # fixed-point numbers: text is parsed through decimal.Decimal
+        m=fields.NUMERIC(int, decimal_places=2))
 
 
 def foreign_schema():
@@ -170,7 +172,7 @@ def make_parser(cfg, sc):
     if cfg == "or":
         return qparser.QueryParser("t", sc, group=qparser.OrGroup)
     if cfg == "multi":
-        return qparser.MultifieldParser(["t", "n"], sc)
+        return qparser.MultifieldParser(["t", "n", "m"], sc)
     if cfg == "simple":
         return qparser.SimpleParser("t", sc)
     if cfg == "dismax":
@@ -205,7 +207,7 @@ def make_parser(cfg, sc):
 def typed_docs():
     dt = datetime.datetime
     return [dict(key=u"0", t=u"ab cd the ab", k=u"ab cd", i=u"ab", n=7, f=7.5,
-                 d=dt(2001, 1, 1), b=True, g=u"abcd", w=u"abcd ab"),
+                 d=dt(2001, 1, 1), b=True, g=u"abcd", w=u"abcd ab", m=u"7.25"),
             dict(key=u"1", t=u"cd éa", k=u"éa", i=u"cd", n=-3, f=-0.5,
                  d=dt(2001, 1, 15, 12), b=False, g=u"cdab", w=u"cd"),
             dict(key=u"2", t=u"ab"),
